@@ -47,6 +47,10 @@ func ParseMiningConfigure(b []byte) (*MiningConfigure, error) {
 		return nil, err
 	}
 
+	if m.Params == nil {
+		return nil, shapeErr("mining.configure without params")
+	}
+
 	err = json.Unmarshal(m.Params[1], m.extParams)
 	if err != nil {
 		return nil, err
